@@ -9,6 +9,7 @@ that tree (`newBlockNode` per node, skip pointers computed by `Ancestor` on the 
 answers are the `Spec.*` walks over `Spec.parentOf ps`.
 -/
 import BV.C17.LemmasLocate
+import BV.C17.LemmasHF
 import BV.Generated.C17
 namespace BV.C17
 open Spec Lemmas
@@ -212,5 +213,61 @@ theorem locateInventory_eq_spec (ps : List Nat) (hv : ValidFrom 1 ps) (t : Nat) 
   congr 2
   funext n
   simp [Index.known, hs]; omega
+
+/-! ### headers-first tracking (light model, see Headers.lean) -/
+
+/-- after every interleaving of header and block deliveries (of non-root nodes) the best header
+    is the root or a header accepted by `ProcessBlockHeader`, and no accepted header has more
+    cumulative work.  Hypothesis: work strictly increases from parent to child for the delivered
+    nodes (every block has positive work — C09 `workSum_strict_mono`). -/
+theorem bestHeader_is_most_work_accepted (e : HF.Env) (ops : List HF.Op)
+    (hW : ∀ op ∈ ops, e.W (e.parent op.node) < e.W op.node) :
+    let s := HF.run e {} ops
+    (s.h.best = 0 ∨ s.h.best ∈ s.h.accepted) ∧ ∀ m ∈ s.h.accepted, e.W m ≤ e.W s.h.best :=
+  HF.run_bestOk e ops {} hW (HF.bestOk_init e)
+
+/-- the hypothesis holds for the chain 0 ← 1 ← 2 with work = height + 1, and the theorem's
+    conclusion is about a non-trivial state there -/
+example :
+    let e : HF.Env := { P := parentOf [0, 1, 0], W := fun n => [1, 2, 3, 2].getD n 0, bad := fun _ => false }
+    (∀ op ∈ [HF.Op.header 1, .header 3, .header 2], e.W (e.parent op.node) < e.W op.node) ∧
+    (HF.run e {} [.header 1, .header 3, .header 2]).h.best = 2 := by
+  decide
+
+/-- a header extending a block that is known invalid (failed validation, or has an invalid
+    ancestor) is refused with `ErrInvalidAncestorBlock`, and a refused header changes nothing -/
+theorem headers_extending_invalid_refused (e : HF.Env) (b : HF.BState) (h : HF.HState) (n : Nat)
+    (hin : HF.inIndex b h (e.parent n) = true) (hinv : b.knownInvalid (e.parent n) = true) :
+    HF.stepHeader e b h n = (h, .invalidAncestor) ∧
+    ∀ k, (HF.stepHeader e b h k).2.isErr = true → (HF.stepHeader e b h k).1 = h :=
+  ⟨HF.stepHeader_invalid_parent e b h n hin hinv, fun k => HF.stepHeader_err_unchanged e b h k⟩
+
+example :
+    let e : HF.Env := { P := parentOf [0, 1], W := fun n => n + 1, bad := fun n => n == 1 }
+    let b : HF.BState := { data := [0, 1], failed := [1] }
+    HF.inIndex b {} (e.parent 2) = true ∧ b.knownInvalid (e.parent 2) = true ∧
+    (HF.stepHeader e b {} 2).2 = .invalidAncestor := by decide
+
+/-- delivering headers (before, between or after the blocks) leads to the same block-side state —
+    stored blocks, validation marks, orphan pool and final best-chain tip — as delivering the
+    blocks alone in the same order.
+    Partial: the block side of the model covers valid blocks anywhere and invalid blocks only where
+    they extend the tip; re-organisations onto branches containing invalid blocks are C02's model. -/
+theorem headers_then_blocks_same_tip_partial (e : HF.Env) (ops : List HF.Op) :
+    (HF.run e {} ops).b = (HF.run e {} (ops.filter HF.Op.isBlock)).b :=
+  HF.run_blocks_only e ops {}
+
+/-! ### pinning of regenerated facts (T2) -/
+
+theorem pin_status_bits :
+    Generated.C17.statusDataStored = (STATUS_DATA_STORED : Int) ∧
+    Generated.C17.statusValid = (STATUS_VALID : Int) ∧
+    Generated.C17.statusValidateFailed = (STATUS_VALIDATE_FAILED : Int) ∧
+    Generated.C17.statusInvalidAncestor = (STATUS_INVALID_ANCESTOR : Int) ∧
+    Generated.C17.statusHeaderStored = (STATUS_HEADER_STORED : Int) := by decide
+
+theorem pin_wire_limits :
+    Generated.C17.maxBlockHeadersPerMsg = (MAX_HEADERS_PER_MSG : Int) ∧
+    Generated.C17.maxBlockLocatorsPerMsg = (MAX_LOCATORS_PER_MSG : Int) := by decide
 
 end BV.C17
